@@ -39,7 +39,8 @@ Definition emit (ps : list slot) (sl : slot) : obs1 :=
     end in
   {| b_direction := if isret then None else dir_str sl.(sl_direction);
      b_caller_allocates := if isret then None else match sl.(sl_direction) with DIn => None | _ => Some sl.(sl_caller_allocates) end;
-     b_transfer := tr_str sl.(sl_transfer);
+     (* a skipped value that reached the writer without a transfer mode is written with "none" *)
+     b_transfer := match tr_str sl.(sl_transfer) with Some t => Some t | None => if sl.(sl_skip) then Some (s "none") else None end;
      b_nullable := nul;
      b_allow_none := if isret then false
                      else (nul && negb (dir_eqb sl.(sl_direction) DOut)) || (sl.(sl_optional) && dir_eqb sl.(sl_direction) DOut);
